@@ -793,6 +793,11 @@ mod sync {
                                         unsafe {prev_waker.drop_in_place()}
                                     }
                                     #[cfg(ohkami_verif)] crate::__verif::sched("p:after_publish");
+                                    // the handler may have run between the load above and this swap;
+                                    // it then found no waker to wake, so look at the flag once more
+                                    if CATCH.load(Ordering::SeqCst) {
+                                        return Poll::Ready(None)
+                                    }
                                 }
                                 #[cfg(any(feature="rt_glommio"))] {
                                     let current_id = glommio::executor().id();
